@@ -286,8 +286,12 @@ impl<'a> Pretty<'a, Formatter<'a>> for TermId {
 impl<'a> Pretty<'a, Formatter<'a>> for SpsLowProgram {
     fn pretty(&self, f: &'a Formatter) -> RcDoc<'a> {
         let builtins = &f.admin.builtins;
+        // The builtin table is a hash map; print it in name order so that the
+        // rendered program is a function of the source alone.
+        let mut builtins = builtins.iter().collect::<Vec<_>>();
+        builtins.sort_by_key(|(name, _)| name.as_str());
         let declarations = builtins
-            .iter()
+            .into_iter()
             .map(|(name, builtin)| {
                 let sort =
                     if builtin.sort == BuiltinSort::Operator { "operator" } else { "function" };
